@@ -735,6 +735,21 @@ func (p *pwPath) constOfD(v ssa.Value, d int) (constant.Value, bool) {
 			if t := p.sliceTableOf(x.Call.Args[0]); t != nil {
 				return constant.MakeInt64(t.length), true
 			}
+			// the length of a nil slice / map, and of the whole of an array (a composite literal of a slice type)
+			switch a := p.resolve(x.Call.Args[0]).(type) {
+			case *ssa.Const:
+				if a.IsNil() {
+					return constant.MakeInt64(0), true
+				}
+			case *ssa.Slice:
+				if a.Low == nil && a.High == nil && a.Max == nil {
+					if pt, isPtr := a.X.Type().Underlying().(*types.Pointer); isPtr {
+						if at, isArr := pt.Elem().Underlying().(*types.Array); isArr {
+							return constant.MakeInt64(at.Len()), true
+						}
+					}
+				}
+			}
 			// the length of a text that is known on this path
 			if bt, isBasic := x.Call.Args[0].Type().Underlying().(*types.Basic); isBasic && bt.Info()&types.IsString != 0 {
 				if a, ok := p.constOfD(x.Call.Args[0], d+1); ok && a.Kind() == constant.String {
